@@ -265,11 +265,11 @@ def judge_files(ctx, recs):
         m_text, m_rt, m_p0, m_p1 = res[4 * i: 4 * i + 4]
         rec = {'kind': r['kind'], 'case': r['case']}
         # (a) byte for byte
-        if m_text[0] != 0 or dec(m_text[1]) != r['text']:
+        text_ok = m_text[0] == 0 and dec(m_text[1]) == r['text']
+        if not text_ok:
             ctx.violation(f'{r["kind"]}: the file text differs from CsvText.csv_file: real {r["text"]!r} model '
                           f'{dec(m_text[1]) if m_text[0] == 0 else m_text!r}',
                           dict(rec, **{'class': 'corr:CsvText.run_csv_file'}), no_input=True)
-            continue
         bodies_ok, ws0, ws1, rt0, rt1 = m_rt[1]
         rows = r['rows']
         unq = [f for row in rows for f in row if not needs_quote(f)]
@@ -286,7 +286,9 @@ def judge_files(ctx, recs):
                           'c15_csv_text_roundtrip / c15_csv_comment_lines_safe hold',
                           dict(rec, **{'class': 'corr:CsvText.run_csv_roundtrip'}), no_input=True)
         # (b) the tokenizer of pandas on the written file == csv_parse
-        if not backtrack_quirk(r['text']):
+        if not text_ok:
+            pass                # the reader is compared on files the model predicts
+        elif not backtrack_quirk(r['text']):
             width = max([len(x) for x in rows] + [len(x) for m in (m_p0, m_p1) if m[1] for x in m[1][0]] + [1]) + 2
             for cm, m in ((None, m_p0), ('#', m_p1)):
                 real = raw_read(r['text'], cm, width)
